@@ -361,6 +361,26 @@ func checkDirtyDecisions(c *Ctx, p *Prog, rule string) {
 								zeroMarker = true
 							}
 						}
+						// the value form (`return a == 0 || b || …`): the equal edge carries the constant true
+						// into the phi that is returned
+						for _, in2 := range succ.Instrs {
+							phi, isPhi := in2.(*ssa.Phi)
+							if !isPhi {
+								break
+							}
+							for i, pr := range succ.Preds {
+								if pr != blk || i >= len(phi.Edges) {
+									continue
+								}
+								if v, isC := constBool(phi.Edges[i]); isC && v {
+									for _, r := range returnsOf(bo.Parent()) {
+										if derefCell(resultOf(r, 0)) == ssa.Value(phi) {
+											zeroMarker = true
+										}
+									}
+								}
+							}
+						}
 						// `a == 0 || b` as a branch chain: the equal edge leads straight to the true return
 						if len(succ.Instrs) > 0 {
 							if r, isR := succ.Instrs[len(succ.Instrs)-1].(*ssa.Return); isR {
@@ -715,6 +735,47 @@ func checkWebKeyAlwaysPosts(c *Ctx, p *Prog, rule string) {
 									}
 								}
 								continue
+							}
+							// the value form `return name == A || name == B || …`: a phi that receives
+							// true along true edges of such comparisons, or the last comparison itself
+							isModCmp := func(v ssa.Value) bool {
+								bo, isBO := v.(*ssa.BinOp)
+								if !isBO || bo.Op != token.EQL {
+									return false
+								}
+								s, isS := constString(bo.Y)
+								return isS && mods[s]
+							}
+							if isModCmp(res) {
+								some = true
+								continue
+							}
+							if phi, isPhi := res.(*ssa.Phi); isPhi {
+								okPhi := true
+								for i, e := range phi.Edges {
+									if i >= len(phi.Block().Preds) {
+										okPhi = false
+										break
+									}
+									pr := phi.Block().Preds[i]
+									if v, isC := constBool(e); isC {
+										if !v {
+											continue
+										}
+										iff, isIf := pr.Instrs[len(pr.Instrs)-1].(*ssa.If)
+										if !isIf || pr.Succs[0] != phi.Block() || !isModCmp(iff.Cond) {
+											okPhi = false
+										}
+										continue
+									}
+									if !isModCmp(e) {
+										okPhi = false
+									}
+								}
+								if okPhi {
+									some = true
+									continue
+								}
 							}
 							all = false
 						}
